@@ -523,3 +523,12 @@ MIR.append(MQ("c12_voting_type_travels", 'quick', q_voting_type, "voting type: u
 # the appearance stage is BestFitVoting: its vote counting / weight definition (sum over counted distances of largest distance
 # seen - d) is what "greatest vote weight" means here; the same obligations that C17 registers for that engine
 MIR += [q for q in _c17.MIR if q.name.startswith('c17_bestfit')]
+
+
+# one whole VisualSort predict call from an arbitrary valid tracker state, see props/stepvisual.py
+import stepvisual as _stepv
+MIR += [q for q in _stepv.MIR]
+EXPLANATION += ' A whole VisualSort::predict_with_scene call is also executed from MIR on a symbolic tracker state (props/stepvisual.py: store model with the real worker loop, real builders / Track::add_observation / merge / VisualMetric::{metric, optimize} / VisualVoting / BestFitVoting / SortVoting code; geometry numbers, feature distances, feature packing and Kalman prediction uninterpreted): the decision expected from the symbolic inputs by the rules of the property is compared with the records.'
+ASSUMPTIONS += ['VisualSort predict step: <= 1 detection x <= 1 stored track in the quick tier (thorough 2x1, 1x2), 1-2 stored observations with / without features, previous voting type any; IoU + Euclidean mode; thresholds, confidences, qualities, IoU values and feature distances from small exact grids (quick: a reduced option grid); own-area thresholds 0 (shares not computed); candidate ids random, assumed distinct; fresh Kalman filter round trip exact; workers run when the caller blocks; HashMap iteration in insertion order']
+import C13 as _c13
+MIR += [q for q in _c13.MIR if q.name in ('c13_gallery_k2_max2', 'c13_gallery_k1_max1')]   # the collected-feature count the appearance gate reads
